@@ -74,28 +74,40 @@ theorem knows_of_not_willApply (F : Nat) (H : List Op) (hh : Hist F H) (r : Repl
 theorem mem_sortByTs (l : List (Nat × Nat)) (x : Nat × Nat) : x ∈ sortByTs l ↔ x ∈ l :=
   (C02.sortByTs_perm l).mem_iff
 
-theorem mem_removalOps (s : OrSwot) (removed : List (Nat × Nat)) (so : SrcOp) :
+theorem of_mem_removalOps (s : OrSwot) (removed : List (Nat × Nat)) (so : SrcOp) (h : so ∈ removalOps s removed) :
+    ∃ p ∈ removed, willApply s p.1 p.2 = true ∧ so = delOp 1 p := by
+  unfold removalOps validDels at h
+  rw [List.mem_map] at h
+  obtain ⟨p, hp, rfl⟩ := h
+  rw [mem_sortByTs, List.mem_filter] at hp
+  exact ⟨p, newest_mem _ _ _ hp.1, hp.2, rfl⟩
+
+theorem mem_removalOps (s : OrSwot) (removed : List (Nat × Nat)) (hnd : C02.NoDupIds removed) (so : SrcOp) :
     so ∈ removalOps s removed ↔ ∃ p ∈ removed, willApply s p.1 p.2 = true ∧ so = delOp 1 p := by
-  unfold removalOps validDels
-  rw [List.mem_map]
   constructor
-  · rintro ⟨p, hp, rfl⟩
-    rw [mem_sortByTs, List.mem_filter] at hp
-    exact ⟨p, hp.1, hp.2, rfl⟩
+  · exact of_mem_removalOps s removed so
   · rintro ⟨p, hp, hw, rfl⟩
+    unfold removalOps validDels
+    rw [newest_of_nodup _ _ hnd, List.mem_map]
     exact ⟨p, by rw [mem_sortByTs, List.mem_filter]; exact ⟨hp, hw⟩, rfl⟩
 
-theorem mem_modificationOps (s : OrSwot) (docs : List Doc) (so : SrcOp) :
+theorem of_mem_modificationOps (s : OrSwot) (docs : List Doc) (so : SrcOp) (h : so ∈ modificationOps s docs) :
+    ∃ d ∈ docs, willApply s d.1 d.2.1 = true ∧ so = putOp 1 (d.1, d.2.1) := by
+  unfold modificationOps validPuts at h
+  rw [List.mem_map] at h
+  obtain ⟨p, hp, rfl⟩ := h
+  rw [mem_sortByTs, List.mem_map] at hp
+  obtain ⟨d, hd, rfl⟩ := hp
+  rw [List.mem_filter] at hd
+  exact ⟨d, newest_mem _ _ _ hd.1, hd.2, rfl⟩
+
+theorem mem_modificationOps (s : OrSwot) (docs : List Doc) (hnd : C02.NoDupIds docs) (so : SrcOp) :
     so ∈ modificationOps s docs ↔ ∃ d ∈ docs, willApply s d.1 d.2.1 = true ∧ so = putOp 1 (d.1, d.2.1) := by
-  unfold modificationOps validPuts
-  rw [List.mem_map]
   constructor
-  · rintro ⟨p, hp, rfl⟩
-    rw [mem_sortByTs, List.mem_map] at hp
-    obtain ⟨d, hd, rfl⟩ := hp
-    rw [List.mem_filter] at hd
-    exact ⟨d, hd.1, hd.2, rfl⟩
+  · exact of_mem_modificationOps s docs so
   · rintro ⟨d, hd, hw, rfl⟩
+    unfold modificationOps validPuts
+    rw [newest_of_nodup _ _ hnd, List.mem_map]
     exact ⟨(d.1, d.2.1), by rw [mem_sortByTs, List.mem_map]; exact ⟨d, by rw [List.mem_filter]; exact ⟨hd, hw⟩, rfl⟩, rfl⟩
 
 /-- A fetched document is the live record the peer's store (hence, by `Agree`, its set) holds now. -/
@@ -243,10 +255,11 @@ theorem repair_refines (H : List Op) (hh : Hist Cluster.F H) (c : Cluster) (a : 
             (diff (absSet c j) (absSet c i)).2 := by
     unfold repairOps
     simp only [hex, htr, Bool.not_true, Bool.false_eq_true, if_false]
+  have hndiff := C05.diff_nodup (absSet c j) (absSet c i)
   -- every removal item / fetched document is an operation the peer has applied
   have hrem : ∀ s' so, so ∈ removalOps s' (diff (absSet c j) (absSet c i)).2 → so.op ∈ (a i).A ∧ so.op.isDel = true := by
     intro s' so hso
-    obtain ⟨p, hp, _, rfl⟩ := (mem_removalOps _ _ _).1 hso
+    obtain ⟨p, hp, _, rfl⟩ := of_mem_removalOps _ _ _ hso
     have := ((diff_exact (absSet c j) (absSet c i) p.1 p.2).2.1 hp).1
     refine ⟨?_, rfl⟩
     have hrec : HasRec (a i).s p.1 p.2 true := by unfold HasRec; rw [hsi]; simpa using this
@@ -254,7 +267,7 @@ theorem repair_refines (H : List Op) (hh : Hist Cluster.F H) (c : Cluster) (a : 
   have hmod : ∀ s' so, so ∈ modificationOps s' (fetched (getNode c i).ks.store (diff (absSet c j) (absSet c i)).1) →
       so.op ∈ (a i).A ∧ so.op.isDel = false ∧ Map.get (absSet c i).entries so.op.key = some so.op.ts := by
     intro s' so hso
-    obtain ⟨d, hd, _, rfl⟩ := (mem_modificationOps _ _ _).1 hso
+    obtain ⟨d, hd, _, rfl⟩ := of_mem_modificationOps _ _ _ hso
     have hrec0 := fetched_rec (getNode c i).ks hagree _ d hd
     rw [hpeerset] at hrec0
     refine ⟨?_, rfl, hrec0⟩
@@ -315,7 +328,7 @@ theorem repair_refines (H : List Op) (hh : Hist Cluster.F H) (c : Cluster) (a : 
           cases rf with
           | true =>
             simp only [if_true]
-            exact ⟨⟨1, o⟩, List.mem_append_left _ ((mem_removalOps _ _ _).2 ⟨(o.key, o.ts), hlisted, hwa0, hso.symm⟩), rfl⟩
+            exact ⟨⟨1, o⟩, List.mem_append_left _ ((mem_removalOps _ _ hndiff.2 _).2 ⟨(o.key, o.ts), hlisted, hwa0, hso.symm⟩), rfl⟩
           | false =>
             simp only [Bool.false_eq_true, if_false]
             -- after the modification half `j` still accepts it: no fetched document is on this key
@@ -333,7 +346,7 @@ theorem repair_refines (H : List Op) (hh : Hist Cluster.F H) (c : Cluster) (a : 
                 · exact hk (hkj o h)
                 · have := (hmod _ so hso).2.2
                   rw [hkey, hent] at this; cases this
-            exact ⟨⟨1, o⟩, List.mem_append_right _ ((mem_removalOps _ _ _).2 ⟨(o.key, o.ts), hlisted, hwa1, hso.symm⟩), rfl⟩
+            exact ⟨⟨1, o⟩, List.mem_append_right _ ((mem_removalOps _ _ hndiff.2 _).2 ⟨(o.key, o.ts), hlisted, hwa1, hso.symm⟩), rfl⟩
         | false =>
           -- a live entry of the peer: listed as a modification, fetched from its store
           have hrank : rank o = liveRec o.ts := by unfold rank; rw [hdel]; rfl
@@ -355,7 +368,7 @@ theorem repair_refines (H : List Op) (hh : Hist Cluster.F H) (c : Cluster) (a : 
           cases rf with
           | false =>
             simp only [Bool.false_eq_true, if_false]
-            exact ⟨⟨1, o⟩, List.mem_append_left _ ((mem_modificationOps _ _ _).2 ⟨(o.key, o.ts, bytes), hfetched, hwa0, hso.symm⟩), rfl⟩
+            exact ⟨⟨1, o⟩, List.mem_append_left _ ((mem_modificationOps _ _ (fetched_nodup _ _ hndiff.1) _).2 ⟨(o.key, o.ts, bytes), hfetched, hwa0, hso.symm⟩), rfl⟩
           | true =>
             simp only [if_true]
             have hrops : ∀ so ∈ removalOps (absSet c j) (diff (absSet c j) (absSet c i)).2, so.op ∈ H :=
@@ -371,13 +384,13 @@ theorem repair_refines (H : List Op) (hh : Hist Cluster.F H) (c : Cluster) (a : 
                 rcases this with h | ⟨so, hso, hkey⟩
                 · exact hk (hkj o h)
                 · -- a removal item on a key the peer holds live: impossible
-                  obtain ⟨p, hp, _, rfl⟩ := (mem_removalOps _ _ _).1 hso
+                  obtain ⟨p, hp, _, rfl⟩ := of_mem_removalOps _ _ _ hso
                   have hpd := ((diff_exact (absSet c j) (absSet c i) p.1 p.2).2.1 hp).1
                   simp only [delOp] at hkey
                   rcases hdisj_i o.key with h1 | h1
                   · rw [h1] at hent; cases hent
                   · rw [← hkey, hpd] at h1; cases h1
-            exact ⟨⟨1, o⟩, List.mem_append_right _ ((mem_modificationOps _ _ _).2 ⟨(o.key, o.ts, bytes), hfetched, hwa1, hso.symm⟩), rfl⟩
+            exact ⟨⟨1, o⟩, List.mem_append_right _ ((mem_modificationOps _ _ (fetched_nodup _ _ hndiff.1) _).2 ⟨(o.key, o.ts, bytes), hfetched, hwa1, hso.symm⟩), rfl⟩
   · intro x
     rw [repair_sets c j i rf hl hf hji x]
     simp only [C01c.step, upd]
@@ -440,13 +453,13 @@ theorem requestOps_sub (s : OrSwot) (iss : Issued) : ∀ o ∈ requestOps s iss,
     rw [mem_sortByTs, List.mem_map] at he
     obtain ⟨d, hd, rfl⟩ := he
     simp only [carried, List.mem_map]
-    exact ⟨d, (List.mem_filter.1 hd).1, rfl⟩
+    exact ⟨d, newest_mem _ _ _ (List.mem_filter.1 hd).1, rfl⟩
   | mdel ds =>
     simp only [requestOps, validDels, List.mem_map] at ho
     obtain ⟨e, he, rfl⟩ := ho
     rw [mem_sortByTs] at he
     simp only [carried, List.mem_map]
-    exact ⟨e, (List.mem_filter.1 he).1, rfl⟩
+    exact ⟨e, newest_mem _ _ _ (List.mem_filter.1 he).1, rfl⟩
 
 /-- **applyAt_refines**: a request handled at node `i` of the executable cluster model (a client
 write, a delivered replication message, in bulk or not; storage working) is matched by admissible
